@@ -22,7 +22,7 @@ EXPLANATION += (  # round-3 supplement
     ' F8 no new generated block is started while a frame of the same method already holds evaluated temporaries (emptying the frame with mem::take clears that). F9 the divergence accumulator of `match` is updated on every iteration path of the arm loop. F10 divergence is inherited only from sub-expressions that are always evaluated (not loop bodies, not the right operand of && / ||).'
 )
 EXPLANATION += (
-    ' F11 at every descent into a user sub-expression (which may return early and then drops exactly the registered variables) no owned value is in limbo - stored in an unregistered temporary or already taken out of its frame for a call that is not emitted yet - and no registered aggregate is partly initialised (may-dataflow of limbo tokens per method, cleared at new_block; per-element closures analysed as loops; helpers summarised). F12 a lazily lowered operand (mir::Value) is stored before the next sub-expression is lowered (the call arguments it names are owned by nobody until then).'
+    ' F11 at every descent into a user sub-expression (which may return early and then drops exactly the registered variables) no owned value is in limbo - stored in an unregistered temporary or already taken out of its frame for a call that is not emitted yet - and no registered aggregate is partly initialised (may-dataflow of limbo tokens per method, cleared at new_block; per-element closures analysed as loops; helpers summarised). F12 a lazily lowered operand (mir::Value) is stored before the next sub-expression is lowered (the call arguments it names are owned by nobody until then). F13 the loops with which the generated clone / drop / eq bodies walk the fields and variants of a type are only left when the iterator is exhausted.'
 )
 ASSUMPTIONS = [
     "lir lowering turns every mir Drop into exactly one call of the type's drop function",
@@ -1176,6 +1176,49 @@ def rule_f12(F):
     return r
 
 
+def rule_f13(F):
+    """The generated clone / drop / eq function of a record or enum must treat EVERY component: the generator walks the fields (and the
+    variants) with loops, and the only way out of such a loop is the exhausted iterator - `continue` skips one component that needs
+    nothing, `break` / `return` would silently skip all later ones (a droppable field after a plain one is never dropped)."""
+    r = RuleResult("C03.F13", "generated clone/drop/eq bodies walk all fields and variants: the component loops are left only when the iterator is exhausted", floor=6)
+    bodies = [b for b in F.bodies_in(["src/lir/lower/drops.rs", "src/lir/lower/clones.rs", "src/lir/lower/eq.rs"]) if b.mir and "::generate_" in b.path and "_body" in b.path]
+    for b in bodies:
+        merged = {}
+        for h, nodes in mir.natural_loops(b):
+            merged.setdefault(h, set()).update(nodes)   # `continue` gives one header several back edges: one loop
+        for h, nodes in sorted(merged.items()):
+            # the iterator step that drives the loop
+            nxt = [x for x in nodes if b.blocks[x]["term"]["k"] == "call" and hir.last(mir.callee_def(b.blocks[x]["term"]) or "") == "next"]
+            if not nxt:
+                continue
+            exits = []
+            for x in sorted(nodes):
+                for y in mir.succs(b.blocks[x]):
+                    if y not in nodes:
+                        exits.append((x, y))
+            # the regular exit: the switch on the result of next() (directly after the call)
+            regular = set()
+            for x in nxt:
+                for y in mir.succs(b.blocks[x]):
+                    if y in nodes and b.blocks[y]["term"]["k"] == "switch":
+                        regular.add(y)
+            # edges into code that never returns (ice!, unwrap on None, overflow checks) do not leave the loop in any execution that
+            # produces a function
+            def returns(y):
+                return any(b.blocks[z]["term"]["k"] == "return" for z in mir.reachable_from(b, y))
+            exits = [(x, y) for x, y in exits if returns(y)]
+            extra = [(x, y) for x, y in exits if x not in regular and x not in nxt]
+            # exits of an inner loop are not exits of this loop's body as long as they stay inside it (already filtered by `not in nodes`)
+            r.inst("%s loop at line %s" % (hir.last(b.path), b.blocks[h]["term"].get("line") or b.blocks[nxt[0]]["term"].get("line")),
+                   {"fn": b.path, "regular_exits": len(exits) - len(extra), "other_exits": len(extra)})
+            for x, y in extra:
+                ln = b.blocks[x]["term"].get("line") or b.line
+                r.bad(b.path, "component loop left early", relfile(b.file), ln,
+                      "%s leaves the loop over the components of a type before the iterator is exhausted: the components after that point get no clone / drop / comparison code "
+                      "(e.g. `Both(u32, Tracked)`: the Tracked field is never dropped)" % hir.last(b.path))
+    return r
+
+
 def rules(ctx):
     F = ctx["F"]
-    return [rule_f1(F), rule_f2(F), rule_f3(F), rule_f4(F), rule_f5(F), rule_f6(F), rule_f7(F), rule_f8(F), rule_f9(F), rule_f10(F), rule_f11(F), rule_f12(F)]
+    return [rule_f1(F), rule_f2(F), rule_f3(F), rule_f4(F), rule_f5(F), rule_f6(F), rule_f7(F), rule_f8(F), rule_f9(F), rule_f10(F), rule_f11(F), rule_f12(F), rule_f13(F)]
